@@ -6,7 +6,8 @@ sys.path.insert(0, os.path.dirname(os.path.abspath(__file__)))
 def generate_all():
     errs = {}
     import gen_radii
-    for name, fn in (("radii", gen_radii.generate),):
+    import gen_tables
+    for name, fn in (("radii", gen_radii.generate), ("tables", gen_tables.generate)):
         try:
             fn()
         except Exception as e:  # noqa
